@@ -108,6 +108,8 @@ def check_props(prop, corr, skip=()):
         info['obligations'] += len(thms)
         t0 = time.time()
         rc, out = corr.sh('timeout 900 coqc %s %s' % (args, rel), cwd=os.path.join(VERIF, 'coq'), timeout=1000)
+        if rc == 124:       # timed out (loaded machine): once more, with more time
+            rc, out = corr.sh('timeout 2700 coqc %s %s' % (args, rel), cwd=os.path.join(VERIF, 'coq'), timeout=2800)
         info['coqc_s'] = round(info['coqc_s'] + time.time() - t0, 1)
         cmds.append('coqc %s %s' % (args, rel))
         if rc != 0:
